@@ -109,8 +109,9 @@ type scopeT struct {
 	H peers.PTo         `json:"h"`
 	I map[string]string `json:"i"`
 	S int               `json:"s,string"`
-	T time.Time         `json:"t,format:RFC3339,omitzero"`
-	U []byte            `json:"u,format:base16"`
+	T time.Time         `json:"t,omitzero"`
+	U []byte            `json:"u"`
+	V uint8             `json:"v,string"`
 }
 
 func scopeValue(i int) any {
@@ -222,7 +223,7 @@ var scopeTexts = []string{
 	`{"b":[1],"t":"2000-13-01T00:00:00Z","c":{"z":1},"g":2.5}`,
 	`"plain"`,
 	`{"a":1,"a":2}`,
-	`{"u":"zz","a":5}`,
+	`{"v":true,"a":5}`,
 }
 
 func (sc *Scope) Run(t *core.Tape, env *Env) (any, []core.Violation) {
